@@ -688,6 +688,14 @@ func (e *Engine) trCall(env *SpecEnv, n SCall) Val {
 			e.specFail(env, err.Error())
 		}
 		return e.decodedTerm(arg(0).T, t)
+	case "res0", "res1", "res2":
+		// resK(call): the K-th result of a (pure external) call with several results
+		v := arg(0)
+		k := int(id.Name[3] - '0')
+		if k >= len(v.Tuple) {
+			e.specFail(env, id.Name+": the call has fewer results")
+		}
+		return v.Tuple[k]
 	case "lastCopied":
 		// number of bytes the most recent io.Copy call reported
 		return intVal(e.heapIn(env.st, "GH_io.lastCopied", "Int"))
